@@ -56,6 +56,15 @@ struct supported_matcher {
 	bool has_multiple_path_elements;
 };
 
+static int add_item_or_delete(cJSON *object, const char *key, cJSON *item)
+{
+	if (unlikely(!cJSON_AddItemToObject(object, key, item))) {
+		cJSON_Delete(item);
+		return -1;
+	}
+	return 0;
+}
+
 static const cJSON *get_fetch_id(const struct peer *p, const cJSON *request, const cJSON *params, cJSON **response)
 {
 	const cJSON *id = cJSON_GetObjectItem(params, "id");
@@ -464,36 +473,48 @@ static int notify_fetching_peer(const struct element *e, const struct fetch *f,
 	if (unlikely(fetch_id == NULL)) {
 		goto error;
 	}
-	cJSON_AddItemToObject(root, "method", fetch_id);
+	if (unlikely(add_item_or_delete(root, "method", fetch_id) < 0)) {
+		goto error;
+	}
 
 	cJSON *param = cJSON_CreateObject();
 	if (unlikely(param == NULL)) {
 		goto error;
 	}
-	cJSON_AddItemToObject(root, "params", param);
+	if (unlikely(add_item_or_delete(root, "params", param) < 0)) {
+		goto error;
+	}
 
 	if (element_is_fetch_only(e)) {
-		cJSON_AddTrueToObject(param, "fetchOnly");
+		if (unlikely(cJSON_AddTrueToObject(param, "fetchOnly") == NULL)) {
+			goto error;
+		}
 	}
 
 	cJSON *path = cJSON_CreateString(e->path);
 	if (unlikely(path == NULL)) {
 		goto error;
 	}
-	cJSON_AddItemToObject(param, "path", path);
+	if (unlikely(add_item_or_delete(param, "path", path) < 0)) {
+		goto error;
+	}
 
 	cJSON *event = cJSON_CreateString(event_name);
 	if (unlikely(event == NULL)) {
 		goto error;
 	}
-	cJSON_AddItemToObject(param, "event", event);
+	if (unlikely(add_item_or_delete(param, "event", event) < 0)) {
+		goto error;
+	}
 
 	if (e->value != NULL) {
 		cJSON *value = cJSON_Duplicate(e->value, 1);
 		if (unlikely(value == NULL)) {
 			goto error;
 		}
-		cJSON_AddItemToObject(param, "value", value);
+		if (unlikely(add_item_or_delete(param, "value", value) < 0)) {
+			goto error;
+		}
 	}
 
 	char *rendered_message = cJSON_PrintUnformatted(root);
@@ -556,7 +577,11 @@ static int get_element(const struct peer *p, const struct cJSON *request, const 
 				*response = create_error_response_from_request(p, request, INTERNAL_ERROR, "reason", "could not allocate memory for path object");
 				return -1;
 			}
-			cJSON_AddItemToObject(root, "path", path);
+			if (unlikely(add_item_or_delete(root, "path", path) < 0)) {
+				cJSON_Delete(root);
+				*response = create_error_response_from_request(p, request, INTERNAL_ERROR, "reason", "could not allocate memory for path object");
+				return -1;
+			}
 
 			cJSON *value = cJSON_Duplicate(e->value, 1);
 			if (unlikely(value == NULL)) {
@@ -565,7 +590,11 @@ static int get_element(const struct peer *p, const struct cJSON *request, const 
 				return -1;
 			}
 
-			cJSON_AddItemToObject(root, "value", value);
+			if (unlikely(add_item_or_delete(root, "value", value) < 0)) {
+				cJSON_Delete(root);
+				*response = create_error_response_from_request(p, request, INTERNAL_ERROR, "reason", "could not allocate memory for value");
+				return -1;
+			}
 
 			cJSON_AddItemToArray(states, root);
 		}
@@ -780,6 +809,10 @@ cJSON *get_elements(const cJSON *request, const struct peer *request_peer)
 	}
 
 	cJSON *states = cJSON_CreateArray();
+	if (unlikely(states == NULL)) {
+		response = create_error_response_from_request(request_peer, request, INTERNAL_ERROR, "reason", "could not allocate memory for states array");
+		goto out;
+	}
 
 	struct list_head *item;
 	struct list_head *tmp;
